@@ -149,7 +149,7 @@ theorem successLog_step_nonrx (e : Ep) (ev : Ev) (h : ∀ c, ev ≠ .rx c) : (st
     · split
       · rfl
       · simp
-  | pump n => simp only []; split <;> simp
+  | pump n => simp only []; split <;> (try split) <;> simp
   | rxEof => simp only []; split <;> simp
   | keepaliveTimer =>
     simp only []
